@@ -93,6 +93,9 @@ pub enum DeclKind {
   Interface { extends: Vec<String>, props: Vec<(String, String)> },
   TypeAlias { ty: String },
   Enum,
+  /// `namespace Name.S1.S2 { … }` with a fixed body: exported interface `A`, type `T`, constant `c`,
+  /// function `f`, class `K`, a hidden interface and a statement
+  Namespace { segments: Vec<String> },
 }
 
 #[derive(Clone, Debug, PartialEq)]
@@ -325,6 +328,12 @@ pub fn render_decl(d: &Decl) -> String {
     ),
     DeclKind::TypeAlias { ty } => format!("{}type {}{} = {};\n", ex, d.name, d.generics, ty),
     DeclKind::Enum => format!("{}enum {} {{ A, B = 5 }}\n", ex, d.name),
+    DeclKind::Namespace { segments } => format!(
+      "{}namespace {}{} {{\n  export interface A {{ a: string }}\n  export type T = number | string;\n  export const c: number = compute();\n  export function f(a: number): string {{ console.log(\"body\"); return compute(); }}\n  export class K {{ p: number = compute(); m(a: string): void {{ console.log(\"body\"); }} }}\n  interface Hidden {{ h: string }}\n  console.log(\"inside a namespace\");\n}}\n",
+      ex,
+      d.name,
+      segments.iter().map(|x| format!(".{}", x)).collect::<String>()
+    ),
   }
 }
 
@@ -761,6 +770,7 @@ pub fn gen_decl(rng: &mut Rng, cx: &GenCtx, name: String, exported: bool, p_bad:
       DeclKind::Interface { extends: vec![], props }
     }
     10 => DeclKind::TypeAlias { ty: gen_ty(rng, cx, &mut refs) },
+    _ if rng.chance(1, 2) => DeclKind::Namespace { segments: (0..rng.below(4)).map(|k| format!("S{}", k)).collect() },
     _ => DeclKind::Enum,
   };
   refs.sort();
